@@ -147,6 +147,15 @@ func C14Cases(p *spec.Program, cfgs []spec.Config, seed uint64, tier string, nSc
 		if ci%2 == 1 {
 			junk = []string{"sensitive_fields=Junk.A+Junk.B", "duration_custom_type=JunkDuration", "exclude=Junk.C", "computed=Junk.D", "required=Junk.E", "Types=Junk", "unknown_option=1"}
 		}
+		if ci%2 == 1 {
+			// an empty entry inside every list (`a++b`, `- ""`): it matches nothing wherever it stands
+			cfg = cfg.Clone()
+			cfg.Types = append(cfg.Types, "")
+			cfg.ExcludeFields = append(cfg.ExcludeFields, "")
+			cfg.ComputedFields = append(cfg.ComputedFields, "")
+			cfg.RequiredFields = append(cfg.RequiredFields, "")
+			cfg.SensitiveFields = append(cfg.SensitiveFields, "")
+		}
 		ref := runFrom(cfg.Render(split, nil))
 		ref.Params = append(ref.Params, junk...)
 		ref.Sim = &Schedule{MapMode: "identity", ClockEpoch: 1_000_000_000, ClockStepNs: 1000}
